@@ -4,6 +4,7 @@ from the record root); a transformer output whose leaves are `Sym` terms says, f
 field of the record it is and which leaf function was applied to it — for all file contents at once.
 -/
 import Alos2.Model.Transform
+import Alos2.Model.Transform2
 
 namespace Alos2
 
@@ -115,6 +116,7 @@ structure Compat {α β : Type} (f : α → β) (lf : LeafFns α) (lf' : LeafFns
 inductive Sym where
   | path (p : List String)          -- the record field at this path (indices as "[i]")
   | app (fn : String) (a : Sym)     -- a named leaf function applied to it
+  | app2 (fn : String) (a b : Sym)  -- a named two-argument leaf function (composite datetime, attitude time)
   deriving Repr, DecidableEq, Inhabited
 
 /-- leaf functions on symbolic leaves; the value-dependent tests are answered by an oracle `ρ`
@@ -125,6 +127,21 @@ def symLeafFns (ρ : String → Sym → Bool) : LeafFns Sym where
   isEmptyStr := ρ "isEmptyStr"
   isMinusOne := ρ "isMinusOne"
   isNan := ρ "isNan"
+
+/-- the leaf functions of `Model/Transform2.lean` on symbolic leaves; the classification of the map-projection
+    designator is answered by an oracle `δ`, made explicit in the theorems -/
+def symLeafFns2 (ρ : String → Sym → Bool) (δ : Sym → Desig) : LeafFns2 Sym where
+  toLeafFns := symLeafFns ρ
+  compositeDatetime := Sym.app2 "composite_datetime"
+  attitudeTime := Sym.app2 "attitude_time"
+  desig := δ
+
+/-- a leaf map compatible with the extended leaf functions -/
+structure Compat2 {α β : Type} (f : α → β) (lf : LeafFns2 α) (lf' : LeafFns2 β) : Prop
+    extends Compat f lf.toLeafFns lf'.toLeafFns where
+  compositeDatetime : ∀ a b, f (lf.compositeDatetime a b) = lf'.compositeDatetime (f a) (f b)
+  attitudeTime : ∀ a b, f (lf.attitudeTime a b) = lf'.attitudeTime (f a) (f b)
+  desig : ∀ a, lf'.desig (f a) = lf.desig a
 
 /-- `ρ` that answers "no" to every test (all optional fields present) -/
 def allPresent : String → Sym → Bool := fun _ _ => false
@@ -170,6 +187,9 @@ def Sym.eval (v : Val) : Sym → Leaf
   | .app "bool" a => realLeafFns.toBool (a.eval v)
   | .app "normalize_datetime" a => realLeafFns.isoDatetime (a.eval v)
   | .app _ a => a.eval v
+  | .app2 "composite_datetime" a b => realLeafFns2.compositeDatetime (a.eval v) (b.eval v)
+  | .app2 "attitude_time" a b => realLeafFns2.attitudeTime (a.eval v) (b.eval v)
+  | .app2 _ a _ => a.eval v
 
 mutual
 /-- the path skeleton a *layout* prescribes (static layouts: literal counts) -/
@@ -198,5 +218,6 @@ end
 def Sym.paths : Sym → List (List String)
   | .path p => [p]
   | .app _ a => a.paths
+  | .app2 _ a b => a.paths ++ b.paths
 
 end Alos2
